@@ -23,6 +23,57 @@ Example C02_nonvacuous :
 Proof. vm_compute. repeat split; reflexivity. Qed.
 
 (* ------------------------------------------------------------------------------------------
+   Tie to the source: the message-state methods of client.py this property rests on are translated from
+   the Python AST on every run (tools/py2v/msgstate.py -> Gen/GenMsgState.v) and proved equal to the
+   functions of the hand model (Session/MsgStateBridge.v).  A semantic change to one of these methods
+   changes the generated text and the corresponding theorem below stops compiling. *)
+From PahoV Require Import Base.Prelude Codec.Mid Session.Model Session.Lemmas Session.Inv
+  Session.MsgStateLib Gen.GenMsgState Session.MsgStateBridge.
+From PahoV Require Import Props.MsgStateTie.
+
+Theorem C02_tie_summaries :
+  gen_summaries_ok = true.
+Proof. exact tie_summaries. Qed.
+Print Assumptions C02_tie_summaries.
+
+Theorem C02_tie_store_writers :
+  gen_store_writers = store_writers_expected.
+Proof. exact tie_store_writers. Qed.
+Print Assumptions C02_tie_store_writers.
+
+Theorem C02_tie_check_clean_session :
+  forall c s protocol clean_start clean_session,
+  cfg_repr c protocol clean_start clean_session ->
+  gen_check_clean_session protocol clean_start (first s) clean_session = Ok (clean_now c s).
+Proof. exact tie_check_clean_session. Qed.
+Print Assumptions C02_tie_check_clean_session.
+
+Theorem C02_tie_reset_out :
+  forall c clean infl0 l,
+  Forall (fun m => qos_okb m = true) l ->
+  gen_reset_out (c_max c) clean l infl0 = (let (r, n) := reset_out_list c clean 0 l in (r, n, Ok tt)).
+Proof. exact tie_reset_out. Qed.
+Print Assumptions C02_tie_reset_out.
+
+Theorem C02_tie_connack_loop :
+  forall cn tagof l calls,
+  Forall (fun m => qos_okb m = true) l ->
+  exists calls',
+    gen_connack_loop true l calls = (fst (connack_loop cn l), calls', Ok MQTT_ERR_SUCCESS) /\
+    ext cn tagof calls calls' (snd (connack_loop cn l)).
+Proof. exact tie_connack_loop. Qed.
+Print Assumptions C02_tie_connack_loop.
+
+Theorem C02_tie_handle_pubrec :
+  forall c s mid raises tagof,
+  sock s = true ->
+  let '(o, calls, r) := gen_handle_pubrec mid (out s) [] in
+  r = Ok MQTT_ERR_SUCCESS /\
+  do_rx c s (IPubrec mid) raises = (with_out s o (inflight s), Inp (IPubrec mid) :: evs (conn s) tagof calls).
+Proof. exact tie_handle_pubrec. Qed.
+Print Assumptions C02_tie_handle_pubrec.
+
+(* ------------------------------------------------------------------------------------------
    The same property on the second-generation session model (coq/theories/Session2): the client's
    output queue and a transport that may refuse writes are modelled; events distinguish a packet
    HANDED to the connection from a packet WRITTEN; reconnect() drops what is still queued. *)
